@@ -28,7 +28,23 @@ const ODD: &[char] = &[
     '/', ' ', '!', '.', '\n', '\t', '\\', '$', '^', '+', '@', '`', '{', '[', ':', '\0', '\u{7f}',
     'é', 'ß', '\u{203f}', '\u{200d}', '\u{200c}', '\u{663}', '\u{301}', '\u{1F600}', '\u{4e2d}', '\u{2160}', '\u{ff3f}', '\u{aa}',
     '\u{80}', '\u{7ff}', '\u{800}', '\u{ffff}', '\u{10000}', '\u{10ffff}',
+    // characters that case folding / compatibility mappings relate to ASCII letters and digits
+    '\u{17f}', '\u{212a}', '\u{130}', '\u{131}', '\u{1e9e}', '\u{2126}', '\u{fb01}', '\u{ff21}', '\u{ff41}', '\u{ff10}', '\u{b5}', '\u{3c2}',
+    '\u{1d7ce}', '\u{2460}', '\u{2d}', '\u{2010}', '\u{2212}', '\u{fe63}', '\u{ff0d}', '\u{5f}', '\u{ff3f}', '\u{fe4d}',
 ];
+
+/// an odd character: half of the time from the list above, otherwise any Unicode scalar value
+fn odd(r: &mut Rng) -> char {
+    if r.chance(1, 2) {
+        return *r.pick(ODD);
+    }
+    loop {
+        let c = if r.chance(3, 4) { r.below(0x10000) } else { r.below(0x110000) };
+        if let Some(ch) = char::from_u32(c as u32) {
+            return ch;
+        }
+    }
+}
 
 fn component(r: &mut Rng) -> String {
     let len = match r.below(26) {
@@ -53,7 +69,7 @@ fn component(r: &mut Rng) -> String {
     while s.chars().count() < len {
         let i = s.chars().count();
         if Some(i) == odd_at {
-            s.push(*r.pick(ODD));
+            s.push(odd(r));
         } else {
             s.push(*r.pick(WORD));
         }
@@ -78,10 +94,10 @@ pub fn gen_string(r: &mut Rng) -> String {
         6 => format!("/{ns}"),
         7 => format!("/{ns}/"),
         8 => format!("/{ns}/{tp}/{tp}"),
-        9 => format!("{}{ns}/{tp}", r.pick(ODD)),
+        9 => format!("{}{ns}/{tp}", odd(r)),
         10 => format!(" /{ns}/{tp}"),
         11 => {
-            let c = *r.pick(ODD);
+            let c = odd(r);
             format!("{c}{}", &ns)
         }
         _ => format!("/{ns}/{tp}"),
@@ -131,6 +147,34 @@ pub fn run_create(ns: &str, tp: &str, out: &mut String) {
             let _ = writeln!(out, "r panic {}", m);
         }
     }
+}
+
+/// exhaustive sweep: every Unicode scalar value congruent to `shard` modulo `nshards`, placed at
+/// the first, a middle and the last position of the namespace and of the topic part of an
+/// otherwise valid name, through try_from and create
+pub fn main_sweep(args: &[String]) {
+    let mut out = String::new();
+    if args[0] != "gen" {
+        return main(args);
+    }
+    let shard: u64 = args[1].parse::<u64>().unwrap() % 1000;
+    let nshards: u64 = args[2].parse().unwrap();
+    let mut c = shard;
+    while c < 0x110000 {
+        if let Some(ch) = char::from_u32(c as u32) {
+            match (c / nshards) % 6 {
+                0 => run_try_from(&format!("/{ch}bcd/topic"), &mut out),
+                1 => run_try_from(&format!("/ab{ch}d/topic"), &mut out),
+                2 => run_try_from(&format!("/abc{ch}/topic"), &mut out),
+                3 => run_try_from(&format!("/name/{ch}opic"), &mut out),
+                4 => run_try_from(&format!("/name/to{ch}ic"), &mut out),
+                _ => run_try_from(&format!("/name/topi{ch}"), &mut out),
+            }
+            run_create(&format!("ab{ch}"), &format!("{ch}cd"), &mut out);
+        }
+        c += nshards;
+    }
+    print!("{}", out);
 }
 
 pub fn main(args: &[String]) {
